@@ -551,11 +551,16 @@ func c19Enumerate(tier string, emit func(c c19Conf)) {
 		if k == len(core) {
 			emit(append(c19Conf{}, c...))
 			if tier == "thorough" {
-				// cross the remaining dimensions completely
+				// cross the remaining dimensions completely (the Caddyfile spelling is crossed with the core product only:
+				// it does not interact with the value of another option)
 				var rec2 func(m int, c c19Conf)
 				rec2 = func(m int, c c19Conf) {
 					if m == len(extra) {
 						emit(append(c19Conf{}, c...))
+						return
+					}
+					if extra[m] == dSpelling {
+						rec2(m+1, c)
 						return
 					}
 					for v := 0; v < len(c19Dims[extra[m]].Values); v++ {
@@ -567,6 +572,11 @@ func c19Enumerate(tier string, emit func(c c19Conf)) {
 					c[extra[m]] = 0
 				}
 				rec2(0, c)
+				for v := 1; v < len(c19Dims[dSpelling].Values); v++ {
+					c2 := append(c19Conf{}, c...)
+					c2[dSpelling] = v
+					emit(c2)
+				}
 			} else {
 				for _, d := range extra {
 					for v := 1; v < len(c19Dims[d].Values); v++ {
